@@ -388,6 +388,15 @@ class Check:
             json.dump(d, f, indent=1, default=str)
         return path
 
+    def is_known(self, key):
+        """records and reports whether `key` is the matcher of an open known finding of this property"""
+        for kf in load_known_findings():
+            if kf.get("property") == self.pid and kf.get("status") == "open" and kf.get("matcher") == key:
+                if key not in [k for k, _ in self.known]:
+                    self.known.append((key, kf.get("summary", "")))
+                return True
+        return False
+
     def violation(self, kind, body, found_input=True):
         """kind: impl-counterexample | tie-T1-broken | tie-T2-broken | proof-broken"""
         # known findings: matched on a stable 'finding_key' the caller puts in body
